@@ -168,3 +168,71 @@ func init() {
 		MinDistinct: 20,
 	})
 }
+
+// cancelCaseParams maps a case index to a directed cancel scenario
+func cancelCaseParams(idx int) (drv.CancelOpts, bool) {
+	nv := drv.NumCancelVariants
+	const shapes, bounds = 9, 7
+	directed := nv * shapes * bounds
+	if idx < directed {
+		return drv.CancelOpts{Variant: drv.CancelVariant(idx % nv), Shape: (idx / nv) % shapes, Boundary: idx / (nv * shapes)}, true
+	}
+	return drv.CancelOpts{}, false
+}
+
+var realCancelVariants = []drv.CancelVariant{drv.CvParkedDeliveredBeforeRelease, drv.CvParkedReleaseRacesDelivery, drv.CvInsideRun, drv.CvRacingLastExit, drv.CvWaitingPendingDelay}
+
+func init() {
+	nDirected := drv.NumCancelVariants * 9 * 7
+	register(&Check{
+		ID: "C04", Level: "exploration",
+		Rule: "the instant is the quantifier: directed sweep = 8 cancel variants (loop parked at an iteration boundary through hook H1 with the cancel fully delivered before release / racing the release; task inside Run; racing the last task's exit; waiting behind a busy slot; waiting with pending delay; waiting with expired delay behind a busy slot; 3 concurrent duplicate cancels) x 9 graph shapes x every boundary 0..6 (number of tasks finished before), delivery observed through the runner's Cancel events; repeated with the REAL taskctl.TaskRunner and shell scripts (marker files prove which tasks executed); plus cancel-heavy conformance histories with slow-to-stop tasks. Oracles: canceled waiting job never runs a task; running job's runner is told to stop; no task begins after the stop was delivered; terminal report canceled, never plain success while tasks were left unrun or stopped; cancel result classes (second cancel = no-op, unknown id = not found, finished job unchanged). A situation is (variant, real?, #tasks, #done at the boundary, #running at park)",
+		Assumptions: []string{seqAssumption, "a cancel that loses the race against natural completion (every task ran to its end unstopped) may be reported as success: the oracle is silent there"},
+		Cases:       func(t string) int { return nDirected + tierN(t, 90, 1200) + tierN(t, 600, 20000) + tierN(t, 0, nDirected*19) },
+		RunCase: func(c *CaseCtx) *CaseResult {
+			nReal := tierN(c.Tier, 90, 1200)
+			nHist := tierN(c.Tier, 600, 20000)
+			var h *drv.HistResult
+			switch {
+			case c.Idx < nDirected:
+				o, _ := cancelCaseParams(c.Idx)
+				o.TmpDir = c.TmpDir
+				h = drv.RunCancelCase(c.Seed, o)
+			case c.Idx < nDirected+nReal:
+				k := c.Idx - nDirected
+				o := drv.CancelOpts{Variant: realCancelVariants[k%len(realCancelVariants)], Shape: (k / 5) % 9, Boundary: (k / 45) % 7, Real: true, TmpDir: c.TmpDir}
+				if o.Shape == 2 || o.Shape >= 7 {
+					o.Shape = 0
+				}
+				h = drv.RunCancelCase(c.Seed, o)
+			case c.Idx < nDirected+nReal+nHist:
+				o := admissionOpts(c.Idx)
+				o.WSchedule, o.WFinish, o.WCancel, o.WFire, o.WStopRel, o.WRead = 28, 28, 28, 6, 9, 1
+				o.SlowStopProb = 0.4
+				o.Pipe.MaxTasks = 5
+				return histCase(c, o, 300)
+			default:
+				o, _ := cancelCaseParams((c.Idx - nDirected - nReal - nHist) % nDirected)
+				o.TmpDir = c.TmpDir
+				h = drv.RunCancelCase(c.Seed, o)
+			}
+			res := &CaseResult{Idx: c.Idx, Events: h.Events, Inconclusive: h.Inconclusive, Evaluations: h.Evaluations["C04"]}
+			for _, f := range h.Findings {
+				if f.Has("C04") {
+					res.Findings = append(res.Findings, f)
+				}
+			}
+			for s := range h.Situations["C04"] {
+				res.Situations = append(res.Situations, s)
+			}
+			if len(res.Findings) > 0 {
+				res.Inconclusive = ""
+			}
+			if len(res.Findings) > 0 || res.Inconclusive != "" || c.Idx%211 == 0 {
+				res.Sample = map[string]any{"case": c.Idx, "journal": h.Journal, "detail": h.Sample}
+			}
+			return res
+		},
+		MinDistinct: 40,
+	})
+}
